@@ -464,7 +464,8 @@ func reifyValue(
 		if err := reifyInto(opts.opts, newMap, sub); err != nil {
 			return reflect.Value{}, err
 		}
-		return newMap, nil
+		// (t may be a pointer to the map type, e.g. for elements of []*map[string]T)
+		return pointerize(t, baseType, newMap), nil
 
 	case reflect.Slice:
 		v, err := reifySlice(opts, baseType, val)
